@@ -72,7 +72,8 @@ fn write_source_span_at(f: &mut fmt::Formatter<'_>, file: &FileOrLib, span: Span
         FileOrLib::Lib(lib) => write_source_line_from_stdlib(f, lib, span.line_start)?,
     }
     write!(f, "{}", INDENT)?;
-    underline(f, span.col_start, span.col_end - span.col_start)
+    // A span that continues on a later line can end left of where it starts.
+    underline(f, span.col_start, span.col_end.saturating_sub(span.col_start))
 }
 
 fn file_line_display(file: &FileOrLib, line: usize) -> String {
